@@ -211,7 +211,9 @@ def main(argv):
     def gen_ops(rng, n):
         if HUNG:
             return []          # a run already failed to terminate: no point in searching further
-        ops, dropped, hung = LP.prescreen(exe, [gen_run(rng).line() for _ in range(n)])
+        first = not COUNTS.get('_gen_calls')
+        bump('_gen_calls')
+        ops, dropped, hung = LP.prescreen(exe, (CORPUS if first else []) + [gen_run(rng).line() for _ in range(n)])
         bump('runs_dropped_nan_injection_not_replayable', dropped)
         HUNG.extend(hung)
         return ops
@@ -232,7 +234,7 @@ def main(argv):
                        'Alpaqa/Proofs/PanocLoop.lean', 'Alpaqa/Proofs/PanocDescent.lean',
                        'Alpaqa/Proofs/PanocInv.lean', 'Alpaqa/Proofs/PanocLoopExample.lean'],
         harness_name='solvers', harness_sources=[], harness_builder=lambda: (exe, log),
-        gen_ops=gen_ops, monitor=monitor, nontrivial=nontrivial, extra_stage=extra, corpus=CORPUS,
+        gen_ops=gen_ops, monitor=monitor, nontrivial=nontrivial, extra_stage=extra,
         driver_input=lambda o, h: o + ' || ' + S.events_only(h), impl_view=S.strip_events,
         n_quick=700, n_thorough=12000,
         trusted_base=[
